@@ -22,7 +22,7 @@ def P(prop, **kw):
 def uws(cap, strl=8, nvars=2, groups=2, m=3, extra=None):
     """per-loop unwinding bounds for cat.c loops whose exit condition is symbolic; a bound that is too small fails an
     unwinding assertion (job inconclusive), it never truncates silently"""
-    u = {"strncpy.0": cap + 1, "strlen.0": strl + 2, "strcpy.0": 10,
+    u = {"strncpy.0": cap + 1, "strlen.0": strl + 2, "strcpy.0": 10, "memcpy.0": max(cap + 1, 12),
          "parse_int_decimal.0": cap + 1, "parse_uint_decimal.0": cap + 1, "parse_num_hexadecimal.0": cap + 1,
          "parse_buffer_hexadecimal.0": cap + 1, "parse_buffer_string.0": cap + 1,
          "format_buffer_hexadecimal.0": 10, "format_buffer_string.0": 10,
@@ -475,6 +475,26 @@ def events_jobs(prop, tier):
     return with_prop(prop, jobs)
 
 
+def evq_jobs(prop, tier):
+    """r_evq.c: events only - two triggers with concrete (command, kind) at symbolic steps, one write refusal, per queue capacity"""
+    jobs = []
+    n = 50
+    combos = ((0, 1), (2, 0)) if tier == "quick" else tuple((a, b) for a in (0, 1, 2) for b in (0, 1, 2))
+    t0s = (2,) if tier == "quick" else (2, 8, 14)
+    caps = (1, 2, 3)
+    codes = ((0, "dataok"),) if tier == "quick" else ((0, "dataok"), (3, "ok"), (1, "datanext"))
+    for rc in caps:
+        for (e1, e2) in combos:
+            for t0 in t0s:
+                for code, cname in codes:
+                    if cname == "datanext":
+                        continue  # DATA_NEXT never terminates with a constant code: not a finite scenario
+                    d = {"N": n, "T0": t0, "E1": e1, "E2": e2, "RINGCAP": rc, "CAT_UNSOLICITED_CMD_BUFFER_SIZE": rc, "EVENT_CODE": "(%d)" % code, "CAPB_MIN": 16, "CAPB_MAX": 16}
+                    jobs.append(Job("r_evq.e%d%d.t%d.r%d.%s" % (e1, e2, t0, rc, cname), "r_evq.c", d, unwind=n + 4, unwindset=uws(9, m=3), hinted=True, object_bits=12,
+                                    samples=300000, timeout=1500, required_witness=["end-of-scenario", "both-accepted" if rc > 1 else "second-refused"]))
+    return with_prop(prop, jobs)
+
+
 def c15(tier):
     # safety half: OK means quiescent (two consecutive calls), for every ring capacity; liveness half: r_line's step bound
     jobs = []
@@ -494,11 +514,13 @@ def c18(tier):
         shapes += [("***", 2), ("ATn=?xL", 1), ("AgxL", 1)]
     for shape, lines in shapes:
         jobs.append(shape_job("C18", shape, lines=lines))
+    # cat_is_hold along a held run handler with release / spurious releases (black box)
+    jobs.append(hold_job(0, 26))
     return with_prop("C18", jobs)
 
 
 def c11(tier):
-    return with_prop("C11", step_jobs("C11", tier))   # + events_jobs: enabled once measured
+    return with_prop("C11", step_jobs("C11", tier) + evq_jobs("C11", tier))
 
 
 def c13(tier):
@@ -507,13 +529,27 @@ def c13(tier):
         pairs = [(0, u) for u in USTATES] + [(19, 0), (17, 0), (8, 0)]
         jobs += step_jobs("C13", tier, pairs=pairs, ringcaps=(rc,))
     jobs += api_jobs("C13", (2, 3, 4, 5, 7, 8), 0, 0, (1, 2, 3) if tier == "quick" else (1, 2, 3, 8))
+    jobs += evq_jobs("C13", tier)
     return with_prop("C13", jobs)
+
+
+def hold_job(kind, t0):
+    kinds = ["run", "read", "write", "test"]
+    n = t0 + 55
+    d = {"KIND": kind, "T0": t0, "N": n}
+    return Job("r_hold.%s.t%d" % (kinds[kind], t0), "r_hold.c", d, unwind=n + 4, unwindset=uws(9, m=3), hinted=True, object_bits=12,
+               samples=200000, timeout=1500, required_witness=["end-of-scenario", "released-with-error", "two-releases-different-status"])
 
 
 def c14(tier):
     pairs = [(17, u) for u in USTATES] + [(13, 0), (14, 0), (15, 0), (16, 0), (0, 3), (0, 4)]
     jobs = step_jobs("C14", tier, pairs=pairs)
     jobs += api_jobs("C14", (6,), 0, 0, (1,))
+    # line-level, black box: all four handler kinds entering hold, release window right after the hold begins (quick)
+    # and later windows (thorough); spurious / repeated releases, second line waiting
+    for kind in (0, 1, 2, 3):
+        for t0 in ((26,) if tier == "quick" else (26, 29, 32, 40, 55)):
+            jobs.append(hold_job(kind, t0))
     return with_prop("C14", jobs)
 
 
